@@ -38,6 +38,8 @@ func init() {
 			{ID: "C07-R14", Title: "VMs are not recycled through shared containers", Floor: 1, Run: vmNotPooled},
 			{ID: "C07-R15", Title: "cell storage is per activation (shared with C02-R2)", Floor: 4, Run: c02r2},
 			{ID: "C07-R5", Title: "VM-level caches are filled only after the fallible work succeeded", Floor: 1, Run: c07r5},
+			{ID: "C07-R16", Title: "references shared with clones are not written through", Floor: 3, Run: cloneAliasesNotWrittenThrough},
+			{ID: "C07-R17", Title: "the halt flag is cleared on every successful start (shared with C18)", Floor: 1, Run: haltClearedOnEveryStart},
 		},
 	})
 }
